@@ -20,13 +20,22 @@ Executable model of the tree code length ("AIFeyn term") of ESR.
 * `hasSubL`, `pyIn`, `pname`, `paramList`, `gmpLoop`, `getMaxParam`, `countParams`
       simplifier.py:48-71 `get_max_param` (the `while` loop on `with_ai`, substring test `'a%i'%j in f`),
       simplifier.py:74-94 `count_params`, and `['a%i'%j for j in range(max_param)]`.
-* `Basis`, `arityOf`, `validPrefix`, `labelsMaxParam`, `treeToAifeyn`
-      fit_single.py:211-240 `tree_to_aifeyn` (and the identical lines 80-83/121-122 of `single_function`):
-      `labels_to_shape` (generator.py:1588-1614) for labels that are basis members, `a<digits>` or integer
-      literals that `eval` accepts; `get_max_param([fstr])` computed label-wise (every label occurs in
-      `node_to_string`'s output delimited by `(`, `)`, `,`; the pattern `a<j>` contains none of these).
+* `Basis`, `arityOf`, `validPrefix`, `isParamLike`, `treeToAifeyn`
+      fit_single.py:211-240 `tree_to_aifeyn` as fixed in /repo bda8ceb:
+      `param_list = [l for l in labels if l.startswith('a') and l[1:].isdigit()]` (the parameter labels are
+      taken from the tree itself: `a` followed by at least one ASCII decimal digit), then
+      `aifeyn_complexity(labels, param_list)`.  Before that `labels_to_shape` (generator.py:1588-1614) runs
+      and can raise for labels that are not basis members, `a<digits>` or integer literals that `eval`
+      accepts.  The still-present call `get_max_param([fstr])` has no observable effect (its result is unused
+      and it cannot raise) and is not part of the model.
       Anything outside (labels needing Python's `eval`, shapes that are not one complete prefix tree,
       where `check_tree`/`node_to_string` misbehave) is the explicit outcome `notModelled`.
+* `labelsMaxParam`, `singleFunctionAifeyn`
+      fit_single.py:80-83 and 121-122, steps (1) and (4) of `single_function`, which is unchanged:
+      `max_param = get_max_param([node_to_string(0, tree, labels)])`, `param_list = ['a%i'%j for j in
+      range(max_param)]`, `aifeyn_complexity(labels, param_list)`.  `get_max_param` of the printed function is
+      computed label-wise (every label occurs in `node_to_string`'s output delimited by `(`, `)`, `,`; the
+      pattern `a<j>` contains none of these).  This is also the rule `tree_to_aifeyn` used before the fix.
 * `Shape`, `shapeParamList`, `fileAfter`, `catFile`, `taggedTrees`
       generator.py:1674-1733, the writer loop of `generate_equations` on rank 0 and the two `cat`s,
       interpreting the generated effect summary `ESR.Gen.Aifeyn.writes / cats`.
@@ -268,16 +277,30 @@ def firstMissing (has : Nat → Bool) : Nat → Nat → Option Nat
 def labelsMaxParam (labels : List String) : Option Nat :=
   firstMissing (fun j => labels.any (pyIn (pname j))) ((labels.map String.length).sum + 2) 0
 
-/-- `tree_to_aifeyn(labels, basis_functions)`: the code length (the second component of the Python
-result is `labels.length`). -/
-def treeToAifeyn {α} (o : LnOps α) (b : Basis) (labels : List String) : Except Err α :=
+/-- `labels_to_shape` + `check_tree` succeed on a complete prefix tree: shared front end of both
+single-tree entry points -/
+def frontEnd (b : Basis) (labels : List String) : Except Err Unit :=
   match labels.mapM (arityOf b) with
   | .error e => .error e
-  | .ok ar =>
-    if !validPrefix 1 ar then .error .notModelled
-    else match labelsMaxParam labels with
-      | none => .error .fuel
-      | some m => aifeyn o labels (paramList m)
+  | .ok ar => if !validPrefix 1 ar then .error .notModelled else .ok ()
+
+/-- `tree_to_aifeyn(labels, basis_functions)` (fixed version): the code length; the second component of the
+Python result is `labels.length`.  `param_list` is the sub-list of parameter-like labels of the tree. -/
+def treeToAifeyn {α} (o : LnOps α) (b : Basis) (labels : List String) : Except Err α :=
+  match frontEnd b labels with
+  | .error e => .error e
+  | .ok () => aifeyn o labels (labels.filter isParamLike)
+
+/-- steps (1) and (4) of `single_function(labels, basis_functions, ...)`: the functional complexity it adds
+to the description length; `param_list` comes from `get_max_param` of the printed function.
+(The rule `tree_to_aifeyn` used before /repo bda8ceb.) -/
+def singleFunctionAifeyn {α} (o : LnOps α) (b : Basis) (labels : List String) : Except Err α :=
+  match frontEnd b labels with
+  | .error e => .error e
+  | .ok () =>
+    match labelsMaxParam labels with
+    | none => .error .fuel
+    | some m => aifeyn o labels (paramList m)
 
 /-! ### the writer loop of `generate_equations` -/
 
